@@ -101,9 +101,15 @@ class Cluster:
         were used during the clustering.
         """
         if self._dimensionality is None:
+            # The radii that were used for the clustering must also be used
+            # here: the cached distance matrix already contains them.
+            kwargs = {}
+            if self._radii is not None:
+                kwargs["radii"] = np.asarray(self._radii)[self.indices]
             self._dimensionality = matid.geometry.get_dimensionality(
                 self.get_atoms(),
                 self._bond_threshold,
                 dist_matrix_radii_mic_1x=self._get_distance_matrix_radii_mic(),
+                **kwargs,
             )
         return self._dimensionality
